@@ -48,6 +48,9 @@ async fn read_n(io: &mut (impl AsyncReadExt + Unpin), n: usize) -> Option<Vec<u8
 }
 
 /// Server side: parse what the client sends in lock-step and answer per script
+/// bytes the scripted server sends right behind a successful reply
+const AFTER_REPLY: &[u8] = b"PAYLOAD-BEHIND-THE-REPLY";
+
 async fn server(mut io: tokio::io::DuplexStream, sc: ServerScript) -> ServerSeen {
     let mut seen = ServerSeen::default();
     let mut sent_total = 0usize;
@@ -144,6 +147,8 @@ async fn server(mut io: tokio::io::DuplexStream, sc: ServerScript) -> ServerSeen
         None => return seen,
     }
     let _ = send(&mut io, &out_plan, sent_total, out_plan.len(), limit, &sc.cuts).await;
+    // tunnel payload follows a successful reply at once: the client must hand over exactly these bytes
+    if limit >= out_plan.len() && sc.reply_code == 0 { let _ = io.write_all(AFTER_REPLY).await; }
     // anything else the client sends before we finish is a framing error
     let mut extra = [0u8; 64];
     if let Ok(Ok(n)) = tokio::time::timeout(Duration::from_millis(5), io.read(&mut extra)).await { seen.leftover = n; }
@@ -211,8 +216,13 @@ fn dialogue_part(rep: &Arc<Reporter>, args: &Args) {
         let (res, seen) = rt.block_on(async move {
             let srv = tokio::spawn(server(server_io, sc2));
             let res = tokio::time::timeout(Duration::from_secs(60), socks5_connect(client_io, auth2, request2)).await;
-            let name = match &res { Ok(r) => result_name(r), Err(_) => "hung".to_string() };
-            drop(res);
+            let mut name = match &res { Ok(r) => result_name(r), Err(_) => "hung".to_string() };
+            // the stream handed over after a successful CONNECT must start with exactly the bytes that followed the reply
+            if let Ok(Ok(S5Result::TcpConnection(mut io))) = res {
+                let mut got = vec![0u8; AFTER_REPLY.len()];
+                let r = tokio::time::timeout(Duration::from_secs(30), io.read_exact(&mut got)).await;
+                if !matches!(r, Ok(Ok(_))) || got != AFTER_REPLY { name = format!("tcp-but-stream-damaged:{}", String::from_utf8_lossy(&got).chars().take(24).collect::<String>()); }
+            }
             let seen = tokio::time::timeout(Duration::from_secs(60), srv).await.ok().and_then(|x| x.ok()).unwrap_or_default();
             (name, seen)
         });
@@ -275,7 +285,9 @@ fn dialogue_part(rep: &Arc<Reporter>, args: &Args) {
         else if reply_name(reply_code).is_some() { &["failure"] }
         else { &["protocol"] };
         let matches_expect = expect.iter().any(|e| res.starts_with(e));
-        if res == "hung" {
+        if res.starts_with("tcp-but-stream-damaged") {
+            rep.violation("bytes following the server's reply were not handed over intact (reply mis-sized?)", witness());
+        } else if res == "hung" {
             rep.violation("client never concluded the dialogue", witness());
         } else if truncate_at.is_some() {
             // success is only acceptable if the complete successful reply was delivered
